@@ -151,7 +151,9 @@ func newInterp(p *core.Prog) *absint.Interp {
 		}
 		v, ok := absint.EvalExpr(pkg.TypesInfo, e)
 		if !ok {
-			return nil, false
+			// initialiser made of pure calls on constants (e.g. BitMask(G1) | BitMask(F1)):
+			// evaluate the value stored by the package initialiser
+			return evalGlobalInitSSA(p, in, g)
 		}
 		return v, true
 	}
@@ -328,4 +330,73 @@ func pathExpr(v ssa.Value) string {
 		return "phi:" + x.Comment
 	}
 	return v.Name()
+}
+
+// evalGlobalInitSSA evaluates the value the synthetic package initialiser stores into g, when it
+// is built from constants, operators and calls of repo functions on such values.
+func evalGlobalInitSSA(p *core.Prog, in *absint.Interp, g *ssa.Global) (absint.Value, bool) {
+	initFn := g.Pkg.Func("init")
+	if initFn == nil {
+		return nil, false
+	}
+	var stored ssa.Value
+	n := 0
+	for _, b := range initFn.Blocks {
+		for _, ins := range b.Instrs {
+			if st, ok := ins.(*ssa.Store); ok && st.Addr == ssa.Value(g) {
+				stored = st.Val
+				n++
+			}
+		}
+	}
+	if n != 1 {
+		return nil, false
+	}
+	var eval func(v ssa.Value, depth int) (absint.Value, bool)
+	eval = func(v ssa.Value, depth int) (absint.Value, bool) {
+		if depth > 8 {
+			return nil, false
+		}
+		switch x := v.(type) {
+		case *ssa.Const:
+			if x.Value == nil {
+				return nil, false
+			}
+			return absint.Const{V: absint.Wrap(x.Value, x.Type()), T: x.Type()}, true
+		case *ssa.BinOp:
+			a, ok1 := eval(x.X, depth+1)
+			b, ok2 := eval(x.Y, depth+1)
+			if !ok1 || !ok2 {
+				return nil, false
+			}
+			r := absint.BinOp(x.Op, a, b, x.Type())
+			_, isC := r.(absint.Const)
+			return r, isC
+		case *ssa.ChangeType:
+			return eval(x.X, depth+1)
+		case *ssa.Call:
+			f := x.Call.StaticCallee()
+			if f == nil || !p.IsRepoFunc(f) {
+				return nil, false
+			}
+			var args []absint.Value
+			for _, a := range x.Call.Args {
+				av, ok := eval(a, depth+1)
+				if !ok {
+					return nil, false
+				}
+				args = append(args, av)
+			}
+			sub := absint.New(p.SSA)
+			sub.Inline = in.Inline
+			outs := sub.Run(f, args, absint.NewState())
+			if len(outs) != 1 || outs[0].Undecided() || outs[0].Panic {
+				return nil, false
+			}
+			_, isC := outs[0].Ret.(absint.Const)
+			return outs[0].Ret, isC
+		}
+		return nil, false
+	}
+	return eval(stored, 0)
 }
